@@ -17,6 +17,7 @@ import z3
 IdSort = z3.DeclareSort("Id")       # strings used as identifiers (station/session/constraint names)
 RefSort = z3.IntSort()              # object references; 0 is null
 NULL = z3.IntVal(0)
+INF = z3.Real("+inf")               # float("inf") stored in a real-sorted place: a constant > 1e30 (assumption A-INF)
 
 _counter = itertools.count()
 
@@ -283,6 +284,10 @@ def to_z3num(v):
     if isinstance(v, Fraction):
         return z3.RealVal(v) if v.denominator != 1 else z3.RealVal(v.numerator)
     if isinstance(v, float):
+        if v == float("inf"):
+            return INF
+        if v == float("-inf"):
+            return -INF
         return z3.RealVal(Fraction(repr(v)))
     if is_z3(v):
         if z3.is_bool(v):
